@@ -67,6 +67,10 @@ func (o goStructObject) setValue(rt *runtime, name string, value Value) bool {
 	}
 
 	fieldValue := o.getValue(name)
+	if !fieldValue.CanSet() {
+		// A struct handed over by value (not by pointer) is not addressable; reflect would panic.
+		panic(rt.panicTypeError("cannot assign to field %q of a Go struct that was not passed by pointer", name))
+	}
 	converted, err := rt.convertCallParameter(value, fieldValue.Type())
 	if err != nil {
 		panic(rt.panicTypeError("Object.setValue convertCallParameter: %s", err))
